@@ -54,7 +54,7 @@ def validate(w, obs, label):
         s = {k: o[k] for k in ("id", "kinds", "ntoks", "events", "weak")}
         s["final"] = {k: v for k, v in o["final"].items() if k not in ("err", "extra")}
         slim.append(s)
-    write_ndjson(tf, slim)
+    write_ndjson(tf, slim, clamp=True)
     r = w.tlc("AtomicTrace", TRACE_CFG, env={"VERIF_TRACE": tf}, label="AtomicTrace-" + label, timeout=3000)
     if not r["completed"]:
         raise Broken("trace validation did not complete: " + r["out"][-3000:])
